@@ -47,6 +47,12 @@ SPELLINGS = (
     ('pct_dots', '%2e%2e/other/{F}', 'outside', 'other'),
     ('pct_slash', '..%2Fother%2F{F}', 'outside', 'other'),
     ('abs_prefix', '{W}/base/sand_evil/{F}', 'outside', 'evil'),
+    ('abs_through_dotdot', '{W}/base/sand/../other/{F}', 'outside', 'other'),
+    ('fileurl_through_dotdot', 'file://{W}/base/sand/../other/{F}', 'outside', 'other'),
+    ('abs_through_pct_dotdot', '{W}/base/sand/%2e%2e/other/{F}', 'outside', 'other'),
+    ('abs_sub_dotdot_dotdot', '{W}/base/sand/sub/../../{F}', 'outside', 'parent'),
+    ('abs_inside_dotdot', '{W}/base/sand/sub/../{F}', 'inside', 'sand'),
+    ('abs_other_tree_sandbox', '{W}-A/base/sand/{F}', 'outside', 'sand'),
     ('http', 'http://sim.test/r/{F}', 'remote', 'remote'),
     ('https_upper', 'HTTPS://sim.test/r/{F}', 'remote', 'remote'),
     ('ftp', 'ftp://sim.test/r/{F}', 'remote', 'remote'),
@@ -90,6 +96,9 @@ def main_xsd(mech, loc, version):
     elif mech == 'locations_arg':
         body = f' <xs:import namespace="{NS_T}"/>\n'
     body += (' <xs:element name="root"><xs:complexType><xs:sequence>'
+             '<xs:element name="wrap" minOccurs="0"><xs:complexType><xs:sequence>'
+             '<xs:any namespace="##other" processContents="lax" minOccurs="0" maxOccurs="unbounded"/>'
+             '</xs:sequence></xs:complexType></xs:element>'
              '<xs:any namespace="##other" processContents="lax" minOccurs="0" maxOccurs="unbounded"/>'
              '</xs:sequence></xs:complexType></xs:element>\n')
     return head + body + '</xs:schema>\n'
@@ -183,9 +192,11 @@ class C12(Check):
         else:
             main = MAIN_KINDS[(index // len(self.points)) % len(MAIN_KINDS)]
         version = '1.1' if m == 'override' else rng.choice(['1.0', '1.1'])
+        self._relbase = rng.random() < 0.25
         if m == 'hint_validate':
             main = 'path'      # the instance document is the main source; the schema comes from its hints
-        return {'allow': a, 'mech': m, 'spell': s, 'main': main, 'slash': rng.random() < 0.5, 'version': version}
+        return {'allow': a, 'mech': m, 'spell': s, 'main': main, 'slash': rng.random() < 0.5, 'version': version,
+                'relbase': bool(self._relbase and main in ('path', 'text_base') and a == 'sandbox')}
 
     # ------------------------------------------------------------------
     def run_case(self, case):
@@ -217,11 +228,11 @@ class C12(Check):
         kw = {'allow': allow}
         uri = loc
         if mech == 'uri_mapper_dict':
-            kw['uri_mapper'] = {'urn:mapped:target': loc}
-            uri = 'urn:mapped:target'
+            kw['uri_mapper'] = {'urn:mapped-target': loc}
+            uri = 'urn:mapped-target'
         elif mech == 'uri_mapper_call':
-            kw['uri_mapper'] = lambda u, _l=loc: _l if u == 'urn:mapped:target' else u
-            uri = 'urn:mapped:target'
+            kw['uri_mapper'] = lambda u, _l=loc: _l if u == 'urn:mapped-target' else u
+            uri = 'urn:mapped-target'
         elif mech == 'locations_arg':
             kw['locations'] = {NS_T: loc}
         fault = None
@@ -268,6 +279,26 @@ class C12(Check):
             source = make_stream('buffered', text.encode(), url='file://' + main_path)
             kw['base_url'] = base_dir
         cls = xmlschema.XMLSchema11 if case['version'] == '1.1' else xmlschema.XMLSchema10
+        saved_cwd = os.getcwd()
+        # a second, identical tree (the 'other working directory' of the two-step cases and the target of the
+        # abs_other_tree_sandbox spelling)
+        root_a = root + '-A'
+        shutil.rmtree(root_a, ignore_errors=True)
+        world_a = World(root_a)
+        if case.get('relbase'):
+            # step 1 (prelude): the same RELATIVE base_url string under another working directory and tree
+            os.chdir(root_a)
+            try:
+                with warnings.catch_warnings():
+                    warnings.simplefilter('ignore')
+                    cls(world_a.write('base/sand/main.xsd', main_xsd('include', 'inc.xsd', case['version'])),
+                        allow='sandbox', base_url='base/sand')
+            except Exception:
+                pass
+            # step 2: the real case, relative base under the real tree
+            os.chdir(root)
+            kw['base_url'] = 'base/sand' + ('/' if case['slash'] else '')
+            counters['relative_base_with_chdir_prelude'] = 1
 
         schema = None
         outcome = {'exc': None, 'msg': None, 'warnings': []}
@@ -275,7 +306,7 @@ class C12(Check):
         if mech in ('hint_validate', 'hint_iter_errors'):
             # written BEFORE the monitor is armed: the harness' own writes are not fetches
             doc_path = world.write('base/sand/doc.xml', self.hint_doc(loc, main_first=mech == 'hint_validate'))
-        self.monitor.start([root, self.pkg_schemas])
+        self.monitor.start([root, self.pkg_schemas] + ([root_a] if root_a else []))
         try:
             with warnings.catch_warnings(record=True) as wlist:
                 warnings.simplefilter('always')
@@ -298,7 +329,10 @@ class C12(Check):
             outcome['warnings'] = [str(w.message)[:200] for w in wlist]
         finally:
             events = self.monitor.stop()
+            os.chdir(saved_cwd)
             shutil.rmtree(root, ignore_errors=True)
+            if root_a:
+                shutil.rmtree(root_a, ignore_errors=True)
 
         # ---- the complete fetch log, classified independently ------------------
         fetches = [classify_fetch(world, ev) for ev in events if ev[0] == 'open'] + \
@@ -326,11 +360,9 @@ class C12(Check):
             elif allow == 'remote':
                 ok = kind == 'remote'
             elif allow == 'sandbox':
-                if remote_main:
-                    ok = kind == 'remote' and where.startswith('http://sim.test/base/sand/')
-                else:
-                    ok = kind == 'local' and (inside_sandbox(world.sand, where) or
-                                              where.startswith(os.path.realpath(self.pkg_schemas)))
+                # only FILES inside the base directory: a remote location is never inside a sandbox
+                ok = kind == 'local' and (inside_sandbox(world.sand, where) or
+                                          where.startswith(os.path.realpath(self.pkg_schemas)))
             if kind == 'local' and where.startswith(os.path.realpath(self.pkg_schemas)) and allow in ('local', 'all'):
                 ok = True
             if is_doc and mech == 'hint_validate':
@@ -387,7 +419,7 @@ class C12(Check):
             counters['probe_fallback_location_tried_after_failed_fetch'] = int(target_fetched or any(
                 k == 'remote' and w.endswith(('gone.xsd', 'slow.xsd')) for k, w in fetches))
         refused = outcome['exc'] in ('XMLResourceBlocked',) or any('lock' in w for w in outcome['warnings'])
-        skeleton = [allow, main_kind, mech, sid, case['slash'] if allow == 'sandbox' else None]
+        skeleton = [allow, main_kind, mech, sid, case['slash'] if allow == 'sandbox' else None, case.get('relbase', False)]
         return {'violations': violations, 'skeleton': skeleton, 'nontrivial': bool(beyond or refused or denied),
                 'counters': counters, 'digest': core.stable_hash([fetches_rel(fetches, root), outcome['exc']]),
                 'sample': {'case': case, 'fetches': fetches_rel(fetches, root)[:6], 'outcome': outcome['exc']}}
@@ -400,8 +432,8 @@ class C12(Check):
         if remote_main:
             # relative spellings resolve against the remote base: everything is remote
             if allow == 'remote':
-                return tclass != 'remote' and False
-            return None if allow == 'sandbox' else (allow == 'local')
+                return False
+            return True      # 'local' and 'sandbox' admit no remote location at all
         if allow == 'local':
             return tclass == 'remote'
         if allow == 'remote':
@@ -412,6 +444,10 @@ class C12(Check):
         hints = f'{NS_T} {loc}'
         if main_first:
             hints = f'{NS_MAIN} main.xsd ' + hints
+        if not main_first:
+            # dynamic loading (use_location_hints) follows hints found BELOW the root element
+            return (f'<m:root xmlns:m="{NS_MAIN}" xmlns:xsi="http://www.w3.org/2001/XMLSchema-instance">'
+                    f'<m:wrap xsi:schemaLocation="{hints}"><t:fetched xmlns:t="{NS_T}">1</t:fetched></m:wrap></m:root>')
         return (f'<m:root xmlns:m="{NS_MAIN}" xmlns:t="{NS_T}" '
                 f'xmlns:xsi="http://www.w3.org/2001/XMLSchema-instance" xsi:schemaLocation="{hints}">'
                 f'<t:fetched>1</t:fetched></m:root>')
